@@ -124,6 +124,36 @@ def feed (m : Map V) : List Nat → List Nat → List Nat × List (Option V)
     let r' := feed m r.1 ks
     (r'.1, r.2 :: r'.2)
 
+/-! ## `KeyMapHandler<O>`: the matcher that owns its table and its pending keys -/
+
+/-- `struct KeyMapHandler { keymap, state }` -/
+structure Handler (V : Type) where
+  keymap : Map V
+  state : List Nat
+
+/-- `KeyMapHandler::new` -/
+def Handler.new : Handler V := ⟨.nil, []⟩
+
+/-- `KeyMapHandler::register`: registers on the table; the pending keys are left alone -/
+def Handler.register (h : Handler V) (c : List Nat) (v : V) : Handler V :=
+  { h with keymap := SurfModel.KeyMap.register h.keymap c v }
+
+/-- `KeyMapHandler::clear`: `self.keymap.clear(); self.state.clear();` -/
+def Handler.clear (_h : Handler V) : Handler V := ⟨.nil, []⟩
+
+/-- `KeyMapHandler::handle`: `self.keymap.lookup_state(&mut self.state, key)` -/
+def Handler.handle (h : Handler V) (k : Nat) : Handler V × Option V :=
+  let r := lookupState h.keymap h.state k
+  ({ h with state := r.1 }, r.2)
+
+/-- feed keys to a handler one at a time -/
+def Handler.feed : Handler V → List Nat → Handler V × List (Option V)
+  | h, [] => (h, [])
+  | h, k :: ks =>
+    let r := h.handle k
+    let r' := Handler.feed r.1 ks
+    (r'.1, r.2 :: r'.2)
+
 /-! ## line protocol
 
 `c18 km <op> …` runs a script on two maps `A`, `B` (values are naturals) and a matcher state; one answer per op:
@@ -137,6 +167,7 @@ def feed (m : Map V) : List Nat → List Nat → List Nat × List (Option V)
                              (`kmrep`: the key vector left in `state`)
 * `s=<chord>`                set the matcher state
 * `c`                        `A.clear()`
+* `hr=<chord>=<v>`, `hc`, `hk=<key>`  `register`, `clear`, `handle` of a `KeyMapHandler` `H` (answers `r`, `c`, `N` | `S<v>`)
 
 chords = keys (`Variant:payload:bits`) joined by `,`; `-` = empty chord.
 `c18 kmrep <op> …` runs the same kind of script and prints only the representation answers, so that the check can
@@ -150,6 +181,8 @@ structure St where
   a : Map Nat := .nil
   b : Map Nat := .nil
   state : List Nat := []
+  /-- a `KeyMapHandler` -/
+  h : Handler Nat := Handler.new
   /-- wire form of every key code seen in the request (codes are injective) -/
   names : List (Nat × String) := []
 
@@ -215,6 +248,21 @@ def step (st : St) (op : String) : St × String × Option String :=
     | some c => let (st, c) := st.intern c; ({ st with state := c }, "s", none)
     | none => (st, "bad-op", none)
   | ["c"] => ({ st with a := .nil }, "c", none)
+  | ["hr", c, v] =>
+    match readChord c, v.toNat? with
+    | some c, some v => let (st, c) := st.intern c; ({ st with h := st.h.register c v }, "r", none)
+    | _, _ => (st, "bad-op", none)
+  | ["hc"] => ({ st with h := st.h.clear }, "c", none)
+  | ["hk", k] =>
+    match readChord k with
+    | some [k] =>
+      let (st, c) := st.intern [k]
+      match c with
+      | [k] =>
+        let r := st.h.handle k
+        ({ st with h := r.1 }, (match r.2 with | none => "N" | some v => s!"S{v}"), none)
+      | _ => (st, "bad-op", none)
+    | _ => (st, "bad-op", none)
   | _ => (st, "bad-op", none)
 
 def runScript : St → List String → List String → List String → List String × List String
